@@ -952,6 +952,8 @@ class TestRun(object):
                 addr = self.instr_addrs[a[2] % len(self.instr_addrs)]
             if addr == self.prog.end:
                 return False
+            if self.arch == "mips32l" and self.prog.text_at.get(addr - 4, "").split(" ")[0] in ("BEQ", "BNE", "J", "JAL", "JR"):
+                return False        # a breakpoint inside a branch delay slot has no defined meaning
             cb = a[3] % 3
             standing = addr == j.pc
             if k == "bp_add":
